@@ -1,7 +1,219 @@
 package sim
 
-// ClientNode is one monitoring device process (filled in by client_world).
-type ClientNode struct{}
+// client_world.go: the monitoring device process - the real client.Client
+// running inside the bubble - and the meter that writes its energy file.
+
+import (
+	"encoding/binary"
+	"fmt"
+	"math/rand/v2"
+	"os"
+	"path/filepath"
+	"sort"
+	"strings"
+	"sync"
+
+	"github.com/glowlabs-org/gca-backend/client"
+	"github.com/glowlabs-org/gca-backend/glow"
+)
+
+// ClientNode is one monitoring device process.
+type ClientNode struct {
+	W       *World
+	Name    string
+	Dir     string
+	C       *client.Client
+	Up      bool
+	Dev     *Device
+	Rows    []string // current content of the energy file (without header)
+	Header  string
+	Origin  uint32
+	Started int
+}
+
+// seededReader replaces crypto/rand.Reader: the client's server shuffle and
+// tick jitter then replay. The stream is derived from one draw of the tape.
+type seededReader struct {
+	mu  sync.Mutex
+	rng *rand.Rand
+}
+
+func (r *seededReader) Read(p []byte) (int, error) {
+	r.mu.Lock()
+	defer r.mu.Unlock()
+	for i := range p {
+		p[i] = byte(r.rng.UintN(256))
+	}
+	return len(p), nil
+}
+
+type worldReader struct{}
+
+func (worldReader) Read(p []byte) (int, error) {
+	w := cur
+	if w == nil || w.rand == nil {
+		for i := range p {
+			p[i] = 0
+		}
+		return len(p), nil
+	}
+	return w.rand.Read(p)
+}
+
+// SeedRandom installs the seeded randomness source for this run.
+func (w *World) SeedRandom() {
+	s := uint64(w.C.Int("rand-seed", 1<<30))
+	w.rand = &seededReader{rng: rand.New(rand.NewPCG(s, 0x9e3779b97f4a7c15))}
+}
+
+// AddClient prepares the directory of a client (not started yet).
+func (w *World) AddClient(name string, dev *Device, gca glow.PublicKey, servers []*ServerNode, origin uint32) *ClientNode {
+	c := &ClientNode{W: w, Name: name, Dir: filepath.Join(w.Dir, name), Dev: dev, Origin: origin, Header: "timestamp,energy (mWh)"}
+	must(os.MkdirAll(c.Dir, 0755))
+	var keys [64]byte
+	copy(keys[:32], dev.Key.Pub[:])
+	copy(keys[32:], dev.Key.Priv[:])
+	must(os.WriteFile(filepath.Join(c.Dir, client.ClientKeyFile), keys[:], 0644))
+	must(os.WriteFile(filepath.Join(c.Dir, client.GCAPubKeyFile), gca[:], 0644))
+	m := map[glow.PublicKey]client.GCAServer{}
+	for _, s := range servers {
+		m[s.Key.Pub] = client.GCAServer{Location: s.Loc, HttpPort: s.HTTP, TcpPort: s.TCP, UdpPort: s.UDP}
+	}
+	c.WriteServerMap(m)
+	var hist [4]byte
+	binary.LittleEndian.PutUint32(hist[:], origin)
+	must(os.WriteFile(filepath.Join(c.Dir, client.HistoryFile), hist[:], 0644))
+	var sid [4]byte
+	binary.LittleEndian.PutUint32(sid[:], dev.ID)
+	must(os.WriteFile(filepath.Join(c.Dir, client.ShortIDFile), sid[:], 0644))
+	c.flushMeter()
+	w.Clients[name] = c
+	return c
+}
+
+// WriteServerMap writes gcaServers.dat in a canonical order.
+func (c *ClientNode) WriteServerMap(m map[glow.PublicKey]client.GCAServer) {
+	// SerializeGCAServerMap iterates a map; the file content is a set, the
+	// order does not matter to the loader.
+	raw, err := client.SerializeGCAServerMap(m)
+	must(err)
+	must(os.WriteFile(filepath.Join(c.Dir, client.GCAServerMapFile), raw, 0644))
+}
+
+func (c *ClientNode) flushMeter() {
+	content := c.Header + "\n" + strings.Join(c.Rows, "\n")
+	if len(c.Rows) > 0 {
+		content += "\n"
+	}
+	must(os.WriteFile(filepath.Join(c.Dir, "energy_data.csv"), []byte(content), 0644))
+}
+
+// MeterAppend appends a reading for a timeslot (value as written by the
+// meter firmware, e.g. "5100" or "-300.5" or "error").
+func (c *ClientNode) MeterAppend(slot uint32, value string, secInSlot int) {
+	ts := int64(BubbleEpoch) + int64(slot)*300 + int64(secInSlot)
+	c.Rows = append(c.Rows, fmt.Sprintf("%d,%s", ts, value))
+	c.flushMeter()
+}
+
+// MeterRewrite replaces the file content.
+func (c *ClientNode) MeterRewrite(rows []string) {
+	c.Rows = append([]string{}, rows...)
+	c.flushMeter()
+}
+
+// Start boots a client incarnation.
+func (c *ClientNode) Start() error {
+	var err error
+	var cl *client.Client
+	w := c.W
+	w.S.mu.Lock()
+	w.S.constructing = c.Name
+	w.S.mu.Unlock()
+	t := w.Do("start@"+c.Name, func() {
+		cl, err = client.NewClient(c.Dir)
+	})
+	w.S.mu.Lock()
+	w.S.constructing = ""
+	w.S.mu.Unlock()
+	if t.Panic != nil {
+		w.Fail(w.Prop+".panic", "client-start", "client start panicked: %v\n%s", t.Panic, firstRepoFrames(t.Stack))
+	}
+	if err != nil {
+		return err
+	}
+	c.C = cl
+	c.Up = true
+	c.Started++
+	w.Settle()
+	return nil
+}
 
 // Stop closes the client.
-func (c *ClientNode) Stop() {}
+func (c *ClientNode) Stop() {
+	if !c.Up {
+		return
+	}
+	cl := c.C
+	c.Up = false
+	w := c.W
+	w.S.mu.Lock()
+	for k := range w.S.hold {
+		if strings.HasPrefix(k, c.Name+":") {
+			delete(w.S.hold, k)
+		}
+	}
+	w.S.mu.Unlock()
+	t := w.Do("close@"+c.Name, func() { cl.Close() })
+	if t.Panic != nil {
+		w.Fail(w.Prop+".panic", "client-close", "client Close panicked: %v\n%s", t.Panic, firstRepoFrames(t.Stack))
+	}
+	w.S.mu.Lock()
+	delete(w.S.ownerNode, interface{}(cl))
+	w.S.mu.Unlock()
+	c.C = nil
+}
+
+// HistoryFile returns the raw history file.
+func (c *ClientNode) HistoryFile() []byte {
+	b, _ := os.ReadFile(filepath.Join(c.Dir, client.HistoryFile))
+	return b
+}
+
+// HistoryValue reads the stored reading of a slot straight from the file
+// (independent reader of the documented layout: 4 byte origin, 4 bytes per
+// slot).
+func (c *ClientNode) HistoryValue(slot uint32) uint32 {
+	b := c.HistoryFile()
+	if len(b) < 4 {
+		return 0
+	}
+	origin := binary.LittleEndian.Uint32(b)
+	if slot < origin {
+		return 0
+	}
+	off := 4 * (1 + uint64(slot) - uint64(origin))
+	if off+4 > uint64(len(b)) {
+		return 0
+	}
+	return binary.LittleEndian.Uint32(b[off:])
+}
+
+// ServerMapFile decodes gcaServers.dat.
+func (c *ClientNode) ServerMapFile() (map[glow.PublicKey]client.GCAServer, error) {
+	b, err := os.ReadFile(filepath.Join(c.Dir, client.GCAServerMapFile))
+	if err != nil {
+		return nil, err
+	}
+	return client.UntrustedDeserializeGCAServerMap(b)
+}
+
+// sortedServerKeys lists the keys of a server map in canonical order.
+func sortedServerKeys(m map[glow.PublicKey]client.GCAServer) []glow.PublicKey {
+	var ks []glow.PublicKey
+	for k := range m {
+		ks = append(ks, k)
+	}
+	sort.Slice(ks, func(i, j int) bool { return string(ks[i][:]) < string(ks[j][:]) })
+	return ks
+}
